@@ -96,6 +96,11 @@ def c18(run: Run):
     rules_c18.check(run, program(run), cyprogram(run), sites(run))
 
 
+def c20(run: Run):
+    from . import rules_c20
+    rules_c20.check(run, program(run), cyprogram(run), sites(run))
+
+
 def c16(run: Run):
     from . import rules_c16
     rules_c16.check(run, program(run))
@@ -144,4 +149,5 @@ CHECKS = {
     "C17": c17,
     "C18": c18,
     "C19": c19,
+    "C20": c20,
 }
